@@ -597,11 +597,17 @@ def run(c):
             ess = essential(small)
             # an essential feature = what is non-trivial in the minimal failing value (at most two, sorted)
             nontrivial = sorted(e for e in ess if not e.split(":")[1].startswith("trivial")) or sorted(ess)
-            feat = "+".join(nontrivial[:2]) or "empty-object"
+            # a feature that names a string mechanism takes precedence: brackets / non-ASCII inside strings break the
+            # delimiting of whatever containers surround them
+            prio = [e for e in nontrivial if e.startswith("string:")]
+            feat = prio[0] if prio else ("+".join(nontrivial[:2]) or "empty-object")
             rp = {"lane": lane, "value": json.loads(json.dumps(v, default=repr)), "shrunk_value": json.loads(json.dumps(small, default=repr)), "shrunk": True, "json_text": textj[:1500], "detail": repr(detail)[:300]}
             if klass.startswith("crash|"):
                 sig = klass.split("|", 1)[1]
                 c.violation(sig + ":feature=" + feat, "%s; minimal failing value has %s" % (o.summary()[:200], ess), rp)
             else:
-                c.violation("C19:%s:%s" % ({"parse-error": "roundtrip:parse-error", "mismatch": "roundtrip:value-differs", "invalid-json": "text:not-valid-json", "meaning-differs": "text:meaning-differs"}[klass.split("|")[0]], feat),
+                kind = {"parse-error": "roundtrip:parse-error", "mismatch": "roundtrip:value-differs", "invalid-json": "text:not-valid-json", "meaning-differs": "text:meaning-differs"}[klass.split("|")[0]]
+                if feat.startswith("string:") and kind.startswith("roundtrip:"):
+                    kind = "roundtrip:parse-error"   # the library's reader mis-delimits: whether it errors or returns other values is one mechanism
+                c.violation("C19:%s:%s" % (kind, feat),
                             "%s: %s; minimal failing value has %s" % (klass, repr(detail)[:200], ess), rp)
